@@ -40,6 +40,20 @@ import (
 
 const maxPriority = 1<<31 - 1
 
+// hasCaps: the tree under test has the second hook generation (schedule points 3/4, VerifWorkSignalled,
+// VerifMsgEmpty). Without it the harness falls back to the first generation: no run-loop mode, no
+// work-signal column.
+var hasCaps = func() bool {
+	var q *verifmq.MessageQueue
+	_, ok := any(q).(interface{ VerifMsgEmpty() bool })
+	return ok
+}()
+
+type capsQ interface {
+	VerifMsgEmpty() bool
+	VerifWorkSignalled() bool
+}
+
 // ---- fake network / sender
 
 type fakeNet struct{ s *fakeSender }
@@ -108,6 +122,10 @@ type ctl struct {
 	bw map[int]bool
 
 	sawCancelMsg, interleaved bool
+	loop                      bool // the real runQueue goroutine drives the sender
+	tok                       bool // loop mode: a work signal has been produced and not yet taken by the loop
+	lostWake                  bool
+	caps                      bool
 	snapTotal                 int
 	truncated                 bool
 }
@@ -193,8 +211,8 @@ func (c *ctl) dump() string {
 		cs[i] = strconv.Itoa(x)
 	}
 	sig := "-" // in loop mode the token is taken asynchronously: not compared
-	if !c.loop {
-		sig = strconv.Itoa(b2i(c.mq.VerifWorkSignalled()))
+	if !c.loop && c.caps {
+		sig = strconv.Itoa(b2i(any(c.mq).(capsQ).VerifWorkSignalled()))
 	}
 	return fmt.Sprintf("pp=%s ps=%s bp=%s bs=%s pat=%s bat=%s cx=[%s] n=%d sig=%s ph=%d", c.wlS(s.PeerPending), c.wlS(s.PeerSent),
 		c.wlS(s.BcstPending), c.wlS(s.BcstSent), c.atS(s.PeerSentAt), c.atS(s.BcstSentAt), strings.Join(cs, ","),
@@ -373,10 +391,23 @@ func (c *ctl) stepC() string {
 		return "noop"
 	}
 	c.release <- struct{}{}
+	if !hasCaps { // first hook generation: sendMessage either returns or reaches SendMsg
+		e := c.wait()
+		switch e.kind {
+		case evDone:
+			c.phase = phIdle
+			return "C empty"
+		case evSend:
+			c.phase = phFlight
+			c.flight = e.msg
+			return "C " + c.msgS(e.msg)
+		}
+		panic(fmt.Sprintf("unexpected event after C: %+v", e))
+	}
 	if e := c.wait(); e.kind != evPoint || e.point != 3 {
 		panic(fmt.Sprintf("expected point 3, got %+v", e))
 	}
-	if c.mq.VerifMsgEmpty() {
+	if any(c.mq).(capsQ).VerifMsgEmpty() {
 		// sendMessage returns without sending
 		c.release <- struct{}{}
 		if !c.loop {
@@ -412,6 +443,14 @@ func (c *ctl) stepD() string {
 		}
 	}
 	c.release <- struct{}{}
+	if !hasCaps {
+		if e := c.wait(); e.kind != evDone {
+			panic(fmt.Sprintf("expected sendMessage to return, got %+v", e))
+		}
+		c.after = append(c.after, tick())
+		c.phase = phIdle
+		return "D " + c.peerS()
+	}
 	if e := c.wait(); e.kind != evPoint || e.point != 4 {
 		panic(fmt.Sprintf("expected point 4, got %+v", e))
 	}
@@ -527,8 +566,22 @@ func exec(cs vh.Case, o *vh.Out) {
 					c.stepD()
 				}
 			}
-			verifmq.SetHook(nil)
 			c.mq.Shutdown()
+			verifmq.SetHook(nil)
+			if c.loop {
+				// the run loop may have woken once more before it saw the shutdown: let it run out
+				cc := c
+				go func() {
+					for {
+						select {
+						case <-cc.ev:
+							cc.release <- struct{}{}
+						case <-time.After(200 * time.Millisecond):
+							return
+						}
+					}
+				}()
+			}
 		}
 	}()
 	for _, line := range cs.Ops {
@@ -566,6 +619,9 @@ func exec(cs vh.Case, o *vh.Out) {
 				c.interleaved = true
 			}
 			c.mq.AddWants(c.list(f[1]), c.list(f[2]))
+			if len(ilist(f[1]))+len(ilist(f[2])) > 0 {
+				c.tok = true
+			}
 			for _, i := range ilist(f[2]) {
 				if _, ok := c.pw[i]; !ok {
 					c.pw[i] = pb.Message_Wantlist_Have
@@ -579,6 +635,9 @@ func exec(cs vh.Case, o *vh.Out) {
 				c.interleaved = true
 			}
 			c.mq.AddBroadcastWantHaves(c.list(f[1]))
+			if len(ilist(f[1])) > 0 {
+				c.tok = true
+			}
 			for _, i := range ilist(f[1]) {
 				c.bw[i] = true
 			}
@@ -586,13 +645,61 @@ func exec(cs vh.Case, o *vh.Out) {
 			if c.phase != phIdle {
 				c.interleaved = true
 			}
+			if c.anySent(c.list(f[1])) { // AddCancels signals only for wants that were sent
+				c.tok = true
+			}
 			c.mq.AddCancels(c.list(f[1]))
 			for _, i := range ilist(f[1]) {
 				delete(c.pw, i)
 				delete(c.bw, i)
 			}
+		case "caps":
+			if !hasCaps {
+				panic("the tree under test lacks the second-generation verif hooks")
+			}
+			c.caps = true
+		case "loop":
+			// from here on the real run loop (runQueue) drives the sender
+			c.loop = true
+			c.mq.Startup()
+			o.Kind("loop-mode")
 		case "resp":
-			c.mq.VerifHandleResponse(c.list(f[1]))
+			ks := c.list(f[1])
+			if !c.loop {
+				c.mq.VerifHandleResponse(ks)
+			} else if c.phase != phIdle {
+				tok = "noop"
+			} else {
+				// handled asynchronously by the run loop: wait until it has cleared the sentAt records.
+				// (A response for keys without a sentAt record changes nothing; it is not sent, because
+				// there would be nothing to wait for and it could be handled at any later time.)
+				st0 := c.mq.VerifState()
+				any0 := false
+				for _, k := range ks {
+					_, a := st0.PeerSentAt[k]
+					_, b := st0.BcstSentAt[k]
+					any0 = any0 || a || b
+				}
+				if any0 {
+					c.mq.ResponseReceived(ks)
+				}
+				for n := 0; any0; n++ {
+					st := c.mq.VerifState()
+					left := false
+					for _, k := range ks {
+						_, a := st.PeerSentAt[k]
+						_, b := st.BcstSentAt[k]
+						left = left || a || b
+					}
+					if !left {
+						break
+					}
+					if n > 4000 {
+						panic("run loop did not handle the response")
+					}
+					time.Sleep(500 * time.Microsecond)
+				}
+			}
 		case "rf":
 			tok = c.refresh(vh.Atoi(f[1]))
 		case "sA":
@@ -606,7 +713,8 @@ func exec(cs vh.Case, o *vh.Out) {
 		case "drain":
 			var msgs []string
 			for n := 0; n < 200; n++ {
-				if c.phase == phIdle && !c.mq.HasMessage() {
+				c.settle(o)
+				if c.phase == phIdle && (c.loop || !c.mq.HasMessage()) {
 					break
 				}
 				switch c.phase {
@@ -631,6 +739,7 @@ func exec(cs vh.Case, o *vh.Out) {
 		if strings.HasPrefix(tok, "C [") && strings.Contains(tok, ":X") {
 			o.Kind("cancel-sent")
 		}
+		c.settle(o)
 		if c.truncated {
 			o.Kind("truncated")
 		}
@@ -708,6 +817,36 @@ func gen(r *vh.Rand, tier string, n int, emit func(vh.Case)) {
 			hdr += " " + strconv.Itoa(l)
 		}
 		c.Ops = append(c.Ops, hdr)
+		if hasCaps {
+			c.Ops = append(c.Ops, "caps 1")
+		}
+		loopDen := 100
+		if tier == "thorough" {
+			loopDen = 30
+		}
+		if hasCaps && rc.Chance(1, loopDen) {
+			// the real run loop drives the sender: every send cycle starts from a work signal or RebroadcastNow
+			c.Ops = append(c.Ops, "loop")
+			for s, k := 0, rc.Range(4, 16); s < k; s++ {
+				switch rc.Intn(10) {
+				case 0, 1, 2, 3:
+					c.Ops = append(c.Ops, producer(rc, ncid))
+				case 4:
+					c.Ops = append(c.Ops, "rf 0")
+				case 5:
+					c.Ops = append(c.Ops, "drain")
+				default:
+					c.Ops = append(c.Ops, "sA", "sB")
+					if rc.Chance(1, 3) {
+						c.Ops = append(c.Ops, producer(rc, ncid))
+					}
+					c.Ops = append(c.Ops, "sC", "sD")
+				}
+			}
+			c.Ops = append(c.Ops, "drain")
+			emit(c)
+			continue
+		}
 		steps := rc.Range(4, 30)
 		if tier == "thorough" {
 			steps = rc.Range(4, 60)
